@@ -20,7 +20,7 @@ import ast
 from fractions import Fraction as Fr
 
 from verifkit import pat
-from verifkit.absrun import Obj, Runner
+from verifkit.absrun import Obj, Runner, StandIn
 from verifkit.core import Outcome
 from verifkit.dim import dims
 from verifkit.finite import Undecided, compared_constants, partition_reps
@@ -251,6 +251,99 @@ def r02_3(ctx):
     return out
 
 
+class AdvBox(StandIn):
+    """adversarial bounding box of an unbounded region: contains nothing, overlaps nothing"""
+
+    def __contains__(self, x):
+        return False
+
+    def __and__(self, o):
+        return None
+
+    def __or__(self, o):
+        return self
+
+    def __ror__(self, o):
+        return self
+
+    def __bool__(self):
+        return True
+
+
+class SubS(StandIn):
+    """stand-in subshape: its containment answers are tabulated; every other observable is adversarial
+    (an unbounded region: negative area, a box that does not contain the query)"""
+
+    def __init__(self, name, answer):
+        self.name, self.answer = name, answer
+        self.asked = []
+        self.jordans = (Obj("curve_of_" + name),)
+
+    def _ask(self, *a, **k):
+        self.asked.append((a, tuple(sorted(k.items()))))
+        return self.answer
+
+    contains_point = contains_jordan = contains_shape = _contains_point = _contains_jordan = _contains_shape = _ask
+
+    def __contains__(self, x):
+        return self._ask(x)
+
+    def box(self):
+        return AdvBox()
+
+    def __float__(self):
+        return -1.0
+
+
+def r02_3b(ctx):
+    import itertools
+    out = Outcome("R02.3b", "composite membership is *exactly* the quantifier over the subshapes: on every truth "
+                            "assignment of three subshapes the answer is all(...) / any(...), whatever boxes and areas "
+                            "the subshapes report, and every nested query receives the caller's arguments", floor=4)
+    out.exhaustive = True
+    specs = [("shape.ConnectedShape._contains_point", all, "P"), ("shape.DisjointShape._contains_point", any, "P"),
+             ("shape.ConnectedShape._contains_jordan", all, "J"), ("shape.DisjointShape._contains_jordan", any, "J")]
+    for q, agg, arg in specs:
+        fn = ctx.fn(q)
+        wrong = []
+        fwd_bad = False
+        undecided = None
+        for answers in itertools.product((True, False), repeat=3):
+            for flag in (True, False):
+                subs = tuple(SubS(f"s{i}", a) for i, a in enumerate(answers))
+                S = Obj("S", subshapes=subs, jordans=tuple(x.jordans[0] for x in subs))
+                S.__dict__["box"] = None
+                try:
+                    got = Runner(ctx, set(), lambda rn, ev, c, n, r, a, k: (AdvBox() if n == "box" and r is S else
+                                                                          -1.0 if n == "float" else NotImplemented)
+                                 ).call_fn(fn, [S, arg, flag])
+                except Undecided as ex:
+                    undecided = str(ex)
+                    break
+                if got is not agg(answers):
+                    wrong.append((answers, flag, got))
+                for x in subs:
+                    for (a, k) in x.asked:
+                        if not (len(a) >= 1 and a[0] == arg and (len(a) < 2 or a[1] is flag) and
+                                (len(a) >= 2 or dict(k).get("boundary", None) is flag)):
+                            fwd_bad = True
+            if undecided:
+                break
+        word = "all" if agg is all else "any"
+        if undecided:
+            out.undecided(q, f"not interpretable: {undecided}", where=fn.where())
+        elif wrong:
+            a, f, g = wrong[0]
+            out.bad(q, f"membership is not {word}(subshape answers)", where=fn.where(),
+                    detail=f"{len(wrong)} of 16 cells wrong, e.g. subshapes answer {a}, boundary={f}: returns {g!r} "
+                           f"(an unbounded subshape's box / area must not short-cut the decision)")
+        elif fwd_bad:
+            out.bad(q, "nested queries do not receive the caller's (object, boundary) arguments", where=fn.where())
+        else:
+            out.ok(q, f"16 cells: result == {word}(answers); arguments forwarded", where=fn.where())
+    return out
+
+
 def r02_4(ctx):
     out = Outcome("R02.4", "`x in shape` dispatches shape -> contains_shape, curve -> contains_jordan, otherwise "
                            "contains_point(Point2D(x)) with boundary=True; Empty contains nothing, Whole everything",
@@ -343,4 +436,4 @@ def r02_6(ctx):
     return out
 
 
-RULES = [r02_1, r02_2, r02_3, r02_4, r02_5, r02_6]
+RULES = [r02_1, r02_2, r02_3, r02_3b, r02_4, r02_5, r02_6]
